@@ -383,6 +383,16 @@ def rule_flow(ctx) -> RuleResult:
              and any(k.arg == "add_children" and unparse(k.value) == "True" for k in c.keywords) for c in ast.walk(cl.node))
     chk(ok, "close(): _io_call(H5Writer.save_entity, self.root, add_children=True)", "Workspace", "close", "final save of the root subtree changed", cl.where,
         "entities created with save_on_creation=False or moved under a new parent are not written at close")
+    reg = ws.methods["register"]
+    pgb = next((i for i in ast.walk(reg.node) if isinstance(i, ast.If) and unparse(i.test) == f"isinstance({reg.params[1]}, PropertyGroup)"), None)
+    ok = False
+    if pgb is not None:
+        for i in [x for x in pgb.body if isinstance(x, ast.If)]:
+            if any("add_or_update_property_group" in unparse(s_) for s_ in i.body):
+                ok = unparse(i.test) == f"not {reg.params[1]}.on_file"
+    chk(ok, "register: a property group that is not on file is written (condition exactly `not entity.on_file`)", "Workspace", "register",
+        "a new property group is written only under an extra condition", reg.where,
+        "register is the only place a new property group reaches the file: some groups (e.g. still empty ones) exist live and are gone after re-opening")
     # --- load side
     init = ws.methods["__init__"]
     last = init.node.body[-1]
